@@ -22,7 +22,7 @@ MANIFEST_TEXT = ("Schema 1.x on the whole-library model: reload is the identity 
 
 
 def tie(ctx):
-    plan = [("mixed", 10, 2)] if ctx.tier == "quick" else [("mixed", 24, 4), ("members", 20, 2)]
+    plan = [("mixed", 10, 6), ("members", 10, 2)] if ctx.tier == "quick" else [("mixed", 24, 16), ("members", 20, 8)]
     r = _lib1.run_part(ctx, "C10", plan, ("reopen",), disk=True, reopen=0.5, track_ops=0.4)
     r["rule"] = ("interleaved histories on DISK libraries of %s; after half of the calls: full observation + raw dump of all "
                  "tables, `reopen` (every handle released, load_database, handles re-obtained by id), observation + dump "
